@@ -3,6 +3,7 @@ Every API operation of Model/Machine.lean preserves the machine invariant of Pro
 (under `err = none` for the result), and `err` is sticky across each of them.
 -/
 import Hfsm.Proofs.MachInv
+import Hfsm.Proofs.LoadMarks
 
 set_option linter.unusedSimpArgs false
 set_option linter.unusedVariables false
@@ -432,6 +433,47 @@ theorem loadEnter_inv {base : Node} {m : Mach U} (st : List Bool) (hi : DormInv 
       by simpa using gW.ext (Node.enter_ext _ _)⟩
 
 
+/-! #### no request mark survives a load
+
+Neither `R_::load` nor `RV_::loadEnter` ends with `registry.clearRequests()`; the marks `deepLoadRequested` lays
+down are all consumed by the pass that follows (Proofs/LoadMarks.lean).  `R_::load` clears the registry's
+requests BEFORE reading, so whatever marks the activated instance carried are gone too; `loadEnter` reads into
+the registry as it is, so marks that were there before (outside the loaded configuration) stay. -/
+
+/-- `load` into an ACTIVATED instance leaves no request mark, whatever marks the instance carried before -/
+theorem loadActive_noMarks {m : Mach U} (st : List Bool) (ha : m.root.Act)
+    (he : (m.loadActive st).w.err = none) : (m.loadActive st).root.NoMarks := by
+  revert he
+  unfold loadActive
+  split
+  · intro h; exact absurd h (World.fail'_errX _ _)
+  · next root st' hload =>
+    intro _
+    dsimp only
+    obtain ⟨hv, _, _⟩ := Node.loadRequested_spec _ st root st' hload
+    have hv0 : root.view true false false = m.root.view true false false := by
+      rw [hv, Node.view_tff_of_tft (Node.noResumable_view true _), Node.view_tff_of_ttf (Node.clearMarks_view true true _)]
+    have hl : root.Loaded :=
+      Node.loadRequested_loaded _ st root st' hload (Node.clearMarks_noResumable_noMarks m.root)
+    simp only [root_updateActivity, Node.commit_fst]
+    exact Node.withResumableOf_noMarks _ _ (Node.commitT_noMarks root hl ((Node.act_congr hv0).mpr ha))
+
+/-- `loadEnter` (load into a manual instance that is not activated) leaves no request mark PROVIDED the
+instance carried none -/
+theorem loadEnter_noMarks {m : Mach U} (st : List Bool) (hn : m.root.NoMarks)
+    (he : (m.loadEnter st).w.err = none) : (m.loadEnter st).root.NoMarks := by
+  revert he
+  unfold loadEnter
+  split
+  · intro h; exact absurd h (World.fail'_errX _ _)
+  · next root st' hload =>
+    intro _
+    dsimp only
+    have hl : root.Loaded := Node.loadRequested_loaded _ st root st' hload hn
+    simp only [root_updateActivity, Node.enter_fst]
+    exact Node.withResumableOf_noMarks _ _ (Node.enterT_noMarks root hl)
+
+
 /-! ### replays -/
 
 theorem foldl_applyRequest_errLe : (l : List (Transition × Nat)) → (m : Mach U) →
@@ -534,6 +576,38 @@ theorem replayTransitions_inv {base : Node} {m : Mach U} (ts : List Transition) 
       rw [if_neg hch]
       rw [h1] at he ⊢
       exact applyRequests_live ts i0 he
+
+/-- `replayTransitions`: answering `true` it ends with `registry.clearRequests()`; answering `false` (empty
+history, or `applyRequests` found `registry == backup`) it leaves exactly the request marks it found. -/
+theorem replayTransitions_noMarks {base : Node} {m : Mach U} (ts : List Transition) (hi : LiveInv base m)
+    (he : (m.replayTransitions ts).1.w.err = none) :
+    ((m.replayTransitions ts).2 = true → (m.replayTransitions ts).1.root.NoMarks) ∧
+    ((m.replayTransitions ts).2 = false → m.root.NoMarks → (m.replayTransitions ts).1.root.NoMarks) := by
+  obtain ⟨m0, ar, c, h0, h1, h2, heq⟩ := replayTransitions_spec m ts
+  rw [heq] at he ⊢
+  have i0 : LiveInv base m0 := by
+    rw [h0]
+    exact ⟨hi.shape, hi.live, hi.good.of_eq (by simp [World.withPrevious]) (by simp [World.withPrevious])
+      (by simp [World.withPrevious])⟩
+  have r0 : m0.root = m.root := by rw [h0]
+  split at he
+  · next hts => rw [if_pos hts]; exact ⟨(fun h => by simp at h), fun _ hn => r0 ▸ hn⟩
+  · next hts =>
+    rw [if_neg hts]
+    split at he
+    · next hch =>
+      rw [if_pos hch]
+      refine ⟨fun _ => ?_, (fun h => by simp at h)⟩
+      simp only [root_updateActivity]
+      exact Node.clearMarks_noMarks _
+    · next hch =>
+      rw [if_neg hch]
+      refine ⟨(fun h => by simp at h), fun _ hn => ?_⟩
+      have i1 : LiveInv base ar.1 := by rw [h1] at he ⊢; exact applyRequests_live ts i0 he
+      have hd : ar.1.root.marksDiffer m0.root = false := by
+        have : ar.2 = ar.1.root.marksDiffer m0.root := by rw [h1]; rfl
+        rw [← this]; simpa using hch
+      exact Node.noMarks_of_marksDiffer_false (i1.shape.trans i0.shape.symm) hd (r0 ▸ hn)
 
 theorem replayEnter_spec (m : Mach U) (ts : List Transition) :
     ∃ (m0 : Mach U) (r1 : Node × World U) (ar : Mach U × Bool) (e : Node × World U),
